@@ -125,7 +125,7 @@ def run(ctx):
     it.run(fi)
     # ---------------- guards
     for p in ("Vout", "bias"):
-        check_type_guard(ctx, "C05.4", fi, p, "TypeError", ["int", "float"], ["str", "complex", "list"])
+        check_type_guard(ctx, "C05.4", fi, p, "TypeError", ["int", "float"], ["str", "complex", "list", "empty str", "empty list"])
         check_range_guard(ctx, "C05.4", fi, p, Reject(lambda x: abs(x) >= 48, [48, -48]), "ValueError", f"|{p}| >= 48", accept_sample=[0, Fraction(479, 10), -47])
     G = {"pulse_shape": "gaussian"}   # c, m, T parametrise the Gaussian pulse only
     check_type_guard(ctx, "C05.4", fi, "c", "TypeError", ["int", "float"], ["str", "list"], assumptions=G)
